@@ -63,6 +63,8 @@ def cmp_c15(case, go, m, s):
         return corr, s == "n/a" or go == s
     if op == "UT":
         return corr, s == "ok"
+    if op in ("FLD", "GFLD", "CFLD"):
+        return cmp_c14(case, go, m, s)
     return corr, go == s
 
 
@@ -167,12 +169,16 @@ def register(PROPS):
     }
     PROPS["C15"] = {
         "generated_layer": True,
-        "gens": [{"id": "C15", "quick": 40000, "thorough": 1500000, "thorough_seeds": 12}],
+        "gens": [{"id": "C15", "quick": 40000, "thorough": 1500000, "thorough_seeds": 12},
+                 # "decode(encode(m)) = m" is about every message that can be built: an ID or type that reached the message by
+                 # any of its routes (Scan, JSON, text, the constructors) is a single line or is not set — the C14 cases
+                 {"id": "C14", "quick": 8000, "thorough": 150000, "thorough_seeds": 4}],
         "compare": cmp_c15,
         "nontrivial": lambda c, g: not (g.startswith("0 | nil") or g.startswith("UEOF")),
         "rule": "messages as for C02; WT: a writer failing or short-writing (0..3 or all bytes, with/without error) at the k-th "
                 "Write for every k of the encoding, one past it, and never; RT: MarshalText then UnmarshalText into a "
-                "populated receiver; UT: damaged/hostile wire texts; non-trivial = something was written or parsed",
+                "populated receiver; UT: damaged/hostile wire texts; non-trivial = something was written or parsed; "
+                "plus the construction routes of an ID / type (FLD, as in C14): a value that cannot round-trip is never set",
         "hist": hist_c15,
         "assumptions": MSG_ASSUME,
     }
